@@ -3,13 +3,14 @@ import DaliVerif.Gen.Commands
 import DaliVerif.Model.Decode
 import DaliVerif.Proofs.AddressI
 /-!
-# The special-command constructor, as translated from the source on this run, equals the model's `encode`
+# The special-command constructors, as translated from the source on this run, equal the model's `encode`
 
 `_SpecialCommand.__init__` builds `ForwardFrame(16, (self._cmdval, self.param))` from a byte TUPLE; the source
 translator reads `int.from_bytes(·, 'big')` as "each element in range(0, 256), then shift-and-or" (its `_IntShim`,
-DESIGN II.8) and prints `Gen.SrcSpecial.specialParam` / `specialNoParam` with the class's code symbolic.
-Here: for every class record and every parameter (a natural number of any size — the range check is on both
-sides) that definition is `Cmd.encode (.special c p)`'s frame or the same exception.
+DESIGN II.8) and prints `Gen.SrcSpecial.*` with the class's code symbolic: the plain special commands with and
+without parameter, `_ShortAddrSpecialCommand.__init__` (integer address and "MASK") and `Initialise.__init__`
+(every combination of its two keywords).  Here: for every class record and every argument (natural numbers of
+any size — the range checks are on both sides) each definition is `Cmd.encode`'s frame or the same exception.
 -/
 namespace DaliVerif.Tie.Special
 open DaliVerif DaliVerif.Frame DaliVerif.Cmd DaliVerif.AddressI
@@ -25,54 +26,31 @@ theorem twoBytes (a b : Nat) (hb : b < 256) :
   simp only [ofBytesBE, List.foldl]
   rw [h]
 
-theorem specialParam_tie (c : SpecialClass) (hc : c.hasparam = true) (param : Nat) :
-    Gen.SrcSpecial.specialParam c.cmdval param = dataOf (Cmd.encode (.special c param)) := by
-  unfold Gen.SrcSpecial.specialParam
-  simp only [Cmd.encode, hc, rangeCheck, bind, Except.bind, ite_true]
-  have hp0 : ¬ ((param : Int) < 0) := by omega
-  have hc0 : ¬ ((c.cmdval : Int) < 0) := by omega
-  by_cases hp : (param : Int) > 255
-  · simp [hp0, hp, dataOf, Except.map]
-  · have hp' : param < 256 := by omega
-    by_cases hcv : (c.cmdval : Int) > 255
-    · have hcv' : ¬ c.cmdval < 256 := by omega
-      have hcvI : ¬ ((c.cmdval : Int) < 256) := by omega
-      simp [hp0, hp, hc0, hcv, hcvI, dataOf, Except.map, Frame.new, natVal, PyVal.asInt?]
-    · have hcv' : c.cmdval < 256 := by omega
-      rw [twoBytes _ _ hp']
-      have hcvI : (c.cmdval : Int) < 256 := by omega
-      have hpI : (param : Int) < 256 := by omega
-      simp only [hp0, hp, hc0, hcv, hcvI, hpI, dataOf, Except.map, Frame.new, natVal, PyVal.asInt?, List.all_cons,
-        List.all_nil, List.map, Int.toNat_natCast, Int.natCast_nonneg, decide_true, Bool.and_true, Bool.true_and,
-        decide_eq_true_eq, and_self, ite_true, if_true, if_false, Bool.or_self, Bool.false_eq_true, decide_false,
-        Int.ofNat_eq_natCast]
-      generalize ofBytesBE [c.cmdval, param] = n
-      have hn : ¬ ((n : Int) < 0) := by omega
-      by_cases hb : 16 < bitLength (n : Int)
-      · have hb' : (16 : Int) < ((bitLength (n : Int) : Nat) : Int) := by exact_mod_cast hb
-        simp [hp0, hp, hc0, hcv, hcvI, hpI, hn, hb, hb', dataOf, Except.map, Frame.new, natVal, PyVal.asInt?]
-      · have hb' : ¬ (16 : Int) < ((bitLength (n : Int) : Nat) : Int) := by exact_mod_cast hb
-        simp [hp0, hp, hc0, hcv, hcvI, hpI, hn, hb, hb', dataOf, Except.map, Frame.new, natVal, PyVal.asInt?]
+/-- what every one of these constructors ends in once the second byte `p` is known to be a byte: the code's own
+range check (inside `int.from_bytes`), then `Frame.__init__`'s sign and width checks -/
+def tail (cv p : Int) : Except PyErr Int :=
+  if cv < 0 then .error .ValueError
+  else if cv > 255 then .error .ValueError
+  else if pyOr (pyShl (pyOr 0 cv) 8) p < 0 then .error .ValueError
+  else if (bitLength (pyOr (pyShl (pyOr 0 cv) 8) p) : Int) > 16 then .error .ValueError
+  else .ok (pyOr (pyShl (pyOr 0 cv) 8) p)
 
-theorem specialNoParam_tie (c : SpecialClass) (hc : c.hasparam = false) (p : Nat) :
-    Gen.SrcSpecial.specialNoParam c.cmdval = dataOf (Cmd.encode (.special c p)) := by
-  unfold Gen.SrcSpecial.specialNoParam
-  simp only [Cmd.encode, hc, bind, Except.bind]
-  have hc0 : ¬ ((c.cmdval : Int) < 0) := by omega
-  have e0 : pyOr (pyShl (pyOr 0 (c.cmdval : Int)) 8) 0 = ((ofBytesBE [c.cmdval, 0] : Nat) : Int) :=
-    twoBytes c.cmdval 0 (by decide)
-  by_cases hcv : (c.cmdval : Int) > 255
-  · have hcvI : ¬ ((c.cmdval : Int) < 256) := by omega
+theorem tail_model (cv p : Nat) (hp : p < 256) :
+    tail cv p = dataOf (Frame.new (natVal 16) (.ints [(cv : Int), (p : Int)])) := by
+  unfold tail
+  have hc0 : ¬ ((cv : Int) < 0) := by omega
+  have hp0 : (0 : Int) ≤ (p : Int) := by omega
+  have hpI : (p : Int) < 256 := by omega
+  by_cases hcv : (cv : Int) > 255
+  · have hcvI : ¬ ((cv : Int) < 256) := by omega
     simp [hc0, hcv, hcvI, dataOf, Except.map, Frame.new, natVal, PyVal.asInt?]
-  · have hcvI : (c.cmdval : Int) < 256 := by omega
-    rw [e0]
-    simp only [hc0, hcv, hcvI, dataOf, Except.map, Frame.new, natVal, PyVal.asInt?, List.all_cons,
+  · have hcvI : (cv : Int) < 256 := by omega
+    rw [twoBytes _ _ hp]
+    simp only [hc0, hcv, hcvI, hpI, hp0, dataOf, Except.map, Frame.new, natVal, PyVal.asInt?, List.all_cons,
       List.all_nil, List.map, Int.toNat_natCast, Int.natCast_nonneg, decide_true, Bool.and_true, Bool.true_and,
       decide_eq_true_eq, and_self, ite_true, if_true, if_false, Bool.or_self, Bool.false_eq_true, decide_false,
       Int.ofNat_eq_natCast]
-    have e1 : ofBytesBE [c.cmdval, Int.toNat 0] = ofBytesBE [c.cmdval, 0] := rfl
-    rw [e1]
-    generalize ofBytesBE [c.cmdval, 0] = n
+    generalize ofBytesBE [cv, p] = n
     have hn : ¬ ((n : Int) < 0) := by omega
     by_cases hb : 16 < bitLength (n : Int)
     · have hb' : (16 : Int) < ((bitLength (n : Int) : Nat) : Int) := by exact_mod_cast hb
@@ -80,12 +58,123 @@ theorem specialNoParam_tie (c : SpecialClass) (hc : c.hasparam = false) (p : Nat
     · have hb' : ¬ (16 : Int) < ((bitLength (n : Int) : Nat) : Int) := by exact_mod_cast hb
       simp [hn, hb, hb']
 
-/-- every class the data translator found registered as a plain special command (constructor =
-`_SpecialCommand.__init__`) is one the source translator traced -/
+/-! ## the translated definitions in terms of `tail` -/
+theorem specialNoParam_src (cv : Int) : Gen.SrcSpecial.specialNoParam cv = tail cv 0 := by
+  unfold Gen.SrcSpecial.specialNoParam tail; rfl
+theorem specialParam_src (cv p : Int) :
+    Gen.SrcSpecial.specialParam cv p =
+      if p < 0 then .error .ValueError else if p > 255 then .error .ValueError else tail cv p := by
+  unfold Gen.SrcSpecial.specialParam tail; grind
+theorem shortSpecialMask_src (cv : Int) : Gen.SrcSpecial.shortSpecialMask cv = tail cv 255 := by
+  unfold Gen.SrcSpecial.shortSpecialMask tail; rfl
+theorem shortSpecial_src (cv a : Int) :
+    Gen.SrcSpecial.shortSpecial cv a =
+      if a < 0 then .error .ValueError else if a > 63 then .error .ValueError
+      else if pyOr (pyShl a 1) 1 < 0 then .error .ValueError
+      else if pyOr (pyShl a 1) 1 > 255 then .error .ValueError
+      else tail cv (pyOr (pyShl a 1) 1) := by
+  unfold Gen.SrcSpecial.shortSpecial tail; grind
+theorem initialiseAddr_src (cv a : Int) :
+    Gen.SrcSpecial.initialiseAddr cv a =
+      if a < 0 then .error .ValueError else if a > 63 then .error .ValueError
+      else if pyOr (pyShl a 1) 1 < 0 then .error .ValueError
+      else if pyOr (pyShl a 1) 1 > 255 then .error .ValueError
+      else tail cv (pyOr (pyShl a 1) 1) := by
+  unfold Gen.SrcSpecial.initialiseAddr tail; grind
+theorem initialiseBroadcast_src (cv : Int) : Gen.SrcSpecial.initialiseBroadcast cv = tail cv 0 := by
+  unfold Gen.SrcSpecial.initialiseBroadcast tail; rfl
+theorem initialiseUnaddressed_src (cv : Int) : Gen.SrcSpecial.initialiseUnaddressed cv = tail cv 255 := by
+  unfold Gen.SrcSpecial.initialiseUnaddressed tail; rfl
+
+/-- the second byte of a short-address special command: `(address << 1) | 1`, a byte for addresses 0..63 -/
+theorem addrByte (a : Nat) (ha : a ≤ 63) :
+    pyOr (pyShl (a : Int) 1) 1 = (((a <<< 1) ||| 1 : Nat) : Int) ∧ ((a <<< 1) ||| 1) < 256 := by
+  constructor
+  · rw [show (1 : Int) = ((1 : Nat) : Int) from rfl, pyShl_ofNat, pyOr_ofNat]
+  · have h1 : a <<< 1 < 2 ^ 8 := by rw [Nat.shiftLeft_eq]; omega
+    exact Nat.or_lt_two_pow h1 (by decide)
+
+/-! ## the ties -/
+theorem specialParam_tie (c : SpecialClass) (hc : c.hasparam = true) (param : Nat) :
+    Gen.SrcSpecial.specialParam c.cmdval param = dataOf (Cmd.encode (.special c param)) := by
+  rw [specialParam_src]
+  simp only [Cmd.encode, hc, rangeCheck, bind, Except.bind, ite_true]
+  have hp0 : ¬ ((param : Int) < 0) := by omega
+  by_cases hp : (param : Int) > 255
+  · simp [hp0, hp, dataOf, Except.map]
+  · have hp' : param < 256 := by omega
+    rw [if_neg hp0, if_neg hp, tail_model _ _ hp']
+    simp [hp0, hp]
+
+theorem specialNoParam_tie (c : SpecialClass) (hc : c.hasparam = false) (p : Nat) :
+    Gen.SrcSpecial.specialNoParam c.cmdval = dataOf (Cmd.encode (.special c p)) := by
+  rw [specialNoParam_src]
+  simp only [Cmd.encode, hc, bind, Except.bind]
+  rw [show (0 : Int) = ((0 : Nat) : Int) from rfl, tail_model _ _ (by decide)]
+  try simp
+
+theorem shortSpecialMask_tie (c : SpecialClass) :
+    Gen.SrcSpecial.shortSpecialMask c.cmdval = dataOf (Cmd.encode (.shortSpecial c none)) := by
+  rw [shortSpecialMask_src]
+  simp only [Cmd.encode, bind, Except.bind, pure, Except.pure]
+  rw [show (255 : Int) = ((255 : Nat) : Int) from rfl, tail_model _ _ (by decide)]
+  try simp
+
+theorem shortSpecial_tie (c : SpecialClass) (a : Nat) :
+    Gen.SrcSpecial.shortSpecial c.cmdval a = dataOf (Cmd.encode (.shortSpecial c (some a))) := by
+  rw [shortSpecial_src]
+  simp only [Cmd.encode, rangeCheck, bind, Except.bind, pure, Except.pure]
+  have ha0 : ¬ ((a : Int) < 0) := by omega
+  by_cases ha : (a : Int) > 63
+  · simp [ha0, ha, dataOf, Except.map]
+  · obtain ⟨e, hlt⟩ := addrByte a (by omega)
+    have h1 : ¬ ((((a <<< 1) ||| 1 : Nat) : Int) < 0) := by omega
+    have h2 : ¬ ((((a <<< 1) ||| 1 : Nat) : Int) > 255) := by omega
+    rw [if_neg ha0, if_neg ha, e, if_neg h1, if_neg h2, tail_model _ _ hlt]
+    simp [ha0, ha]
+
+theorem initialiseAddr_tie (c : SpecialClass) (a : Nat) :
+    Gen.SrcSpecial.initialiseAddr c.cmdval a = dataOf (Cmd.encode (.initialise c false (some a))) := by
+  rw [initialiseAddr_src]
+  simp only [Cmd.encode, rangeCheck, bind, Except.bind, pure, Except.pure]
+  have ha0 : ¬ ((a : Int) < 0) := by omega
+  by_cases ha : (a : Int) > 63
+  · simp [ha0, ha, dataOf, Except.map]
+  · obtain ⟨e, hlt⟩ := addrByte a (by omega)
+    have h1 : ¬ ((((a <<< 1) ||| 1 : Nat) : Int) < 0) := by omega
+    have h2 : ¬ ((((a <<< 1) ||| 1 : Nat) : Int) > 255) := by omega
+    rw [if_neg ha0, if_neg ha, e, if_neg h1, if_neg h2, tail_model _ _ hlt]
+    simp [ha0, ha]
+
+theorem initialiseBroadcastAddr_tie (c : SpecialClass) (a : Nat) :
+    Gen.SrcSpecial.initialiseBroadcastAddr c.cmdval a = dataOf (Cmd.encode (.initialise c true (some a))) := by
+  unfold Gen.SrcSpecial.initialiseBroadcastAddr
+  simp [Cmd.encode, dataOf, Except.map, bind, Except.bind]
+
+theorem initialiseBroadcast_tie (c : SpecialClass) :
+    Gen.SrcSpecial.initialiseBroadcast c.cmdval = dataOf (Cmd.encode (.initialise c true none)) := by
+  rw [initialiseBroadcast_src]
+  simp only [Cmd.encode, bind, Except.bind, pure, Except.pure]
+  rw [show (0 : Int) = ((0 : Nat) : Int) from rfl, tail_model _ _ (by decide)]
+  try simp
+
+theorem initialiseUnaddressed_tie (c : SpecialClass) :
+    Gen.SrcSpecial.initialiseUnaddressed c.cmdval = dataOf (Cmd.encode (.initialise c false none)) := by
+  rw [initialiseUnaddressed_src]
+  simp only [Cmd.encode, bind, Except.bind, pure, Except.pure]
+  rw [show (255 : Int) = ((255 : Nat) : Int) from rfl, tail_model _ _ (by decide)]
+  try simp
+
+/-- every class the data translator found registered as a special command whose constructor is one of the three
+translated ones is a class the source translator traced -/
 theorem special_rows_traced :
-    Gen.tables.specialOpcodes.all (fun e => e.2.kind != .plain ||
-      (if e.2.hasparam then Gen.SrcSpecial.specialParamKeys.contains (0, e.2.cmdval)
-       else Gen.SrcSpecial.specialNoParamKeys.contains (0, e.2.cmdval))) = true := by
+    Gen.tables.specialOpcodes.all (fun e =>
+      match e.2.kind with
+      | .plain => if e.2.hasparam then Gen.SrcSpecial.specialParamKeys.contains (0, e.2.cmdval)
+                  else Gen.SrcSpecial.specialNoParamKeys.contains (0, e.2.cmdval)
+      | .shortAddr => Gen.SrcSpecial.shortSpecialKeys.contains (0, e.2.cmdval)
+      | .initialise => Gen.SrcSpecial.initialiseKeys.contains (0, e.2.cmdval)
+      | .custom => true) = true := by
   decide +kernel
 
 end DaliVerif.Tie.Special
